@@ -3,20 +3,22 @@
 (* Generators keep numerators small; TLC aborts on overflow (never wraps). *)
 EXTENDS Integers, Sequences
 
-AbsI(x) == IF x < 0 THEN -x ELSE x
+\* (no unary minus anywhere in these modules: TLC fails to pre-evaluate and cache
+\* constant definitions whose operators use it)
+AbsI(x) == IF x < 0 THEN 0 - x ELSE x
 RECURSIVE GCD(_, _)
 GCD(a, b) == IF b = 0 THEN a ELSE GCD(b, a % b)
 
 RNorm(n, d) ==
   IF n = 0 THEN <<0, 1>>
-  ELSE LET s == IF d < 0 THEN -1 ELSE 1
+  ELSE LET s == IF d < 0 THEN 0 - 1 ELSE 1
            g == GCD(AbsI(n), AbsI(d))
        IN <<(s * n) \div g, (s * d) \div g>>
 R(n) == <<n, 1>>
 RZero == <<0, 1>>
 ROne == <<1, 1>>
 RAdd(a, b) == RNorm(a[1] * b[2] + b[1] * a[2], a[2] * b[2])
-RNeg(a) == <<-a[1], a[2]>>
+RNeg(a) == <<0 - a[1], a[2]>>
 RSub(a, b) == RAdd(a, RNeg(b))
 RMul(a, b) == RNorm(a[1] * b[1], a[2] * b[2])
 RInv(a) == RNorm(a[2], a[1])
@@ -30,12 +32,12 @@ RMax(a, b) == IF RLt(a, b) THEN b ELSE a
 RMin(a, b) == IF RLt(a, b) THEN a ELSE b
 RECURSIVE RPowI(_, _)
 RPowI(a, k) == IF k = 0 THEN ROne
-               ELSE IF k < 0 THEN RInv(RPowI(a, -k))
+               ELSE IF k < 0 THEN RInv(RPowI(a, 0 - k))
                ELSE RMul(a, RPowI(a, k - 1))
 \* exact integer square root when it exists, else -1
-ISqrt(n) == IF n < 0 THEN -1
+ISqrt(n) == IF n < 0 THEN 0 - 1
             ELSE LET c == {k \in 0..(IF n < 4 THEN n ELSE n \div 2) : k * k = n}
-                 IN IF c = {} THEN -1 ELSE CHOOSE k \in c : TRUE
+                 IN IF c = {} THEN 0 - 1 ELSE CHOOSE k \in c : TRUE
 RHasSqrt(a) == a[1] >= 0 /\ ISqrt(a[1]) >= 0 /\ ISqrt(a[2]) >= 0
 RSqrt(a) == <<ISqrt(a[1]), ISqrt(a[2])>>
 RECURSIVE RSum(_)
